@@ -284,12 +284,19 @@ class Ctx:
             cmd.append("-race")
         cmd.append(pkg if pkg.startswith(".") else "./" + pkg)
         t = time.time()
-        try:
-            p = subprocess.run(cmd, cwd=REPO, env=e, stdout=subprocess.PIPE, stderr=subprocess.STDOUT,
-                               timeout=timeout + 120, universal_newlines=True, errors="replace")
-            rc, out = p.returncode, p.stdout
-        except subprocess.TimeoutExpired as ex:
-            rc, out = 124, "go test: runner timeout\n" + str(ex.stdout or "")
+        for attempt in (1, 2):
+            try:
+                p = subprocess.run(cmd, cwd=REPO, env=e, stdout=subprocess.PIPE, stderr=subprocess.STDOUT,
+                                   timeout=timeout + 120, universal_newlines=True, errors="replace")
+                rc, out = p.returncode, p.stdout
+            except subprocess.TimeoutExpired as ex:
+                rc, out = 124, "go test: runner timeout\n" + str(ex.stdout or "")
+            # the test process was killed from outside (SIGTERM / SIGKILL, e.g. the OOM killer or an
+            # unrelated pkill): says nothing about the code, run it once more
+            if attempt == 1 and rc != 0 and re.search(r"^signal: (terminated|killed)", out, re.M) and "panic:" not in out:
+                self.log.append("go test %s: killed by a signal, retried" % run)
+                continue
+            break
         with open(os.path.join(outdir, "go.out"), "w") as f:
             f.write(out)
         self.log.append("go test %s: rc=%d %.1fs" % (run, rc, time.time() - t))
@@ -324,13 +331,18 @@ class Ctx:
             ee = dict(e)
             ee.update({"VERIF_OUT": d, "VERIF_SEED": str(self.seed), "VERIF_TIER": self.tier, "VERIF_CASES": cf})
             ee.update({kk: str(v) for kk, v in (env or {}).items()})
-            try:
-                q = subprocess.run([binp, "-test.run", run, "-test.count=1", "-test.timeout", "%ds" % timeout],
-                                   cwd=os.path.join(REPO, pkg) if pkg != "." else REPO, env=ee, stdout=subprocess.PIPE,
-                                   stderr=subprocess.STDOUT, timeout=timeout + 60, universal_newlines=True, errors="replace")
+            for attempt in (1, 2):
+                try:
+                    q = subprocess.run([binp, "-test.run", run, "-test.count=1", "-test.timeout", "%ds" % timeout],
+                                       cwd=os.path.join(REPO, pkg) if pkg != "." else REPO, env=ee, stdout=subprocess.PIPE,
+                                       stderr=subprocess.STDOUT, timeout=timeout + 60, universal_newlines=True, errors="replace")
+                except subprocess.TimeoutExpired as ex:
+                    return 124, "runner timeout\n" + str(ex.stdout or ""), d
+                # killed from outside by SIGTERM / SIGKILL (no Go panic, no test output of a failure): once more
+                if attempt == 1 and q.returncode in (-15, -9) and "panic:" not in q.stdout:
+                    self.log.append("worker %d of %s: killed by signal %d, retried" % (k, run, -q.returncode))
+                    continue
                 return q.returncode, q.stdout, d
-            except subprocess.TimeoutExpired as ex:
-                return 124, "runner timeout\n" + str(ex.stdout or ""), d
         with concurrent.futures.ThreadPoolExecutor(max_workers=nproc) as ex:
             res = list(ex.map(one, range(nproc)))
         rc = max(r[0] for r in res)
